@@ -13,6 +13,8 @@ inside the critical section, the counter's value.
   conc inflight <maxPeer> <maxSub>  in-flight accounting of one subnet key
   conc caps <maxIn> <maxOut>      peer caps, repaired code (`addPeer` re-checks)
   conc caps-pinned <maxIn> <maxOut>  peer caps as pinned (insert without re-check)
+  conc srv                        rhp4 Server.Serve / Close (stream accepted, joined or refused, finished)
+  conc teardown                   Syncer.Run / Close teardown of a running syncer (repaired code)
 -/
 namespace Verif.Drv
 open Verif.Conc
@@ -153,8 +155,67 @@ def capsModel (fixed : Bool) : Model where
     | _ => none
   step := capsStepLine fixed
 
+/-! ### rhp4 server: Serve / Close -/
+
+def srvRun (s : Srv) (a : SrvStep) (out : Srv → String) : Srv × String :=
+  match s.step a with
+  | some s' => (s', out s')
+  | none => (s, "not-enabled")
+
+def srvStepLine (s : Srv) : List String → Srv × String
+  | ["stream"] => srvRun s .accept fun _ => "ok"
+  | ["enter"] => srvRun s .enter fun _ => if s.tg.closed then "refused" else "ok"
+  | ["finish"] => srvRun s .finish fun _ => "ok"
+  | ["close"] => srvRun s .close fun _ => if s.tg.closed then "again" else "first"
+  | ["closeret"] => srvRun s .closeRet fun _ => "ok"
+  | _ => (s, "bad-op")
+
+def srvModel : Model where
+  σ := Srv
+  init := fun _ => some {}
+  step := srvStepLine
+
+/-! ### Syncer.Run / Close teardown (repaired code) -/
+
+def tdRun (s : TD) (a : TDStep) (out : TD → String) : TD × String :=
+  match TD.step true s a with
+  | some s' => (s', out s')
+  | none => (s, "not-enabled")
+
+def tdStepLine (s : TD) : List String → TD × String
+  | ["connstart"] => tdRun s .connStart fun _ => if s.tgClosed then "closed" else "ok"
+  | ["connfail"] => tdRun s .connFail fun _ => "ok"
+  | ["connadd"] => tdRun s .connAdd fun _ => "ok"
+  | ["peeradd", "open"] => tdRun s (.peerAdd true) fun _ => if s.tgClosed then "refused" else "ok"
+  | ["peeradd", "closed"] => tdRun s (.peerAdd false) fun _ => if s.tgClosed then "refused" else "ok"
+  | ["remoteclose", "added"] => tdRun s (.remoteClose false) fun _ => "ok"
+  | ["remoteclose", "serving"] => tdRun s (.remoteClose true) fun _ => "ok"
+  | ["watch"] => tdRun s .watch fun _ => "ok"
+  | ["peererr"] => tdRun s .peerErr fun _ => "ok"
+  | ["peerremove"] => tdRun s .peerRemove fun _ => "ok"
+  | ["loopexit", "accept"] => tdRun s .acceptExit fun _ => "ok"
+  -- a context loop ends because the thread group stopped, or (environment) because it failed
+  | ["loopexit", "bg"] => tdRun s (if s.tgClosed then .bgExit else .bgFail) fun _ => "ok"
+  | ["recv"] => tdRun s .runRecv fun _ => "ok"
+  | ["lclose"] => tdRun s .runCloseL fun _ => "ok"
+  -- the number of peers the sweep finds in the map is the real `len(s.peers)` under `s.mu`
+  | ["sweep"] => tdRun s .runSweep fun _ => s!"ok {s.mapSize}"
+  | ["drained"] => tdRun s .runPeersDone fun _ => "ok"
+  | ["runreturn"] => tdRun s .runReturn fun _ => "ok"
+  | ["closel"] => tdRun s .closeL fun _ => "ok"
+  | ["closestop"] => tdRun s .closeStop fun _ => "ok"
+  | ["closeret"] => tdRun s .closeRet fun _ => "ok"
+  | _ => (s, "bad-op")
+
+def tdModel : Model where
+  σ := TD
+  init := fun _ => some {}
+  step := tdStepLine
+
 def concModels : List (String × Model) := [
   ("tg", tgModel),
+  ("srv", srvModel),
+  ("teardown", tdModel),
   ("inflight", ifModel),
   ("caps", capsModel true),
   ("caps-pinned", capsModel false)
